@@ -312,6 +312,19 @@ class ManifestRecursiveLoader:
         self.openpgp_signed = m.openpgp_signed
         self.openpgp_signature = m.openpgp_signature
 
+    def _get_walk_top(self, path):
+        """
+        Get the system path to start os.walk() at for relative path
+        @path. It must not end with a slash (as joining with an empty
+        @path would make it): the walkers look up the ancestors
+        of a directory by os.path.dirname() of the paths os.walk()
+        yields, and would not find the top directory.
+        """
+        top = os.path.join(self.root_directory, path)
+        if len(top) > 1:
+            top = top.rstrip(os.sep) or os.sep
+        return top
+
     def load_manifest(self,
                       relpath,
                       verify_entry=None,
@@ -646,7 +659,7 @@ class ManifestRecursiveLoader:
         """
 
         entry_dict = self.get_file_entry_dict(path)
-        it = os.walk(os.path.join(self.root_directory, path),
+        it = os.walk(self._get_walk_top(path),
                      onerror=throw_exception,
                      followlinks=True)
 
@@ -1058,7 +1071,7 @@ class ManifestRecursiveLoader:
             verify_manifests=verify_manifests)
         new_manifests = []
         directory_ids = {}
-        it = os.walk(os.path.join(self.root_directory, path),
+        it = os.walk(self._get_walk_top(path),
                      onerror=throw_exception,
                      followlinks=True)
 
@@ -1180,7 +1193,7 @@ class ManifestRecursiveLoader:
         # Manifests met during the walk (they have a MANIFEST entry)
         linked_manifests = set()
 
-        it = os.walk(os.path.join(self.root_directory, path),
+        it = os.walk(self._get_walk_top(path),
                      onerror=throw_exception,
                      followlinks=True)
 
